@@ -1,9 +1,170 @@
 import QecVerif.Model.Wire
+import QecVerif.Model.Cli
 namespace Qec.Drv
-open Qec Qec.Wire
+open Qec Qec.Wire Qec.Cli
+
+namespace C19
+
+def hexVal? (c : Char) : Option Nat :=
+  if '0' ≤ c ∧ c ≤ '9' then some (c.toNat - '0'.toNat)
+  else if 'a' ≤ c ∧ c ≤ 'f' then some (c.toNat - 'a'.toNat + 10)
+  else none
+
+def unhexGo : List Char → Option (List Char)
+  | [] => some []
+  | a :: b :: rest => do
+      let x ← hexVal? a
+      let y ← hexVal? b
+      let t ← unhexGo rest
+      pure (Char.ofNat (16 * x + y) :: t)
+  | _ => none
+
+/-- "-" = empty text; otherwise two lower-case hex digits per (latin-1) character -/
+def unhex? (s : String) : Option (List Char) :=
+  if s == "-" then some [] else unhexGo s.toList
+
+def hexDigit (n : Nat) : Char :=
+  if n < 10 then Char.ofNat ('0'.toNat + n) else Char.ofNat ('a'.toNat + n - 10)
+
+def hex (l : List Char) : String :=
+  if l.isEmpty then "-" else
+  String.ofList (l.flatMap fun c => [hexDigit (c.toNat / 16 % 16), hexDigit (c.toNat % 16)])
+
+def parseReg? (s : String) : Option (List (List Char)) :=
+  if s == "_" then some [] else some ((s.splitOn ",").map (·.toList))
+
+def parseArgTok? : String → Option ArgTok
+  | "tuple" => some .tuple | "iter" => some .iter | "scalar" => some .scalar
+  | "notliteral" => some .notLiteral | "syntax" => some .syntaxErr | _ => none
+
+def parseCtorTok? : String → Option CtorTok
+  | "ok" => some .ok | "raises" => some .raises | _ => none
+
+def parseFloatTok? (s : String) : Option FloatTok :=
+  if s == "bad" then some .bad else if s == "nan" then some .nan
+  else if s == "inf" then some .posInf else if s == "-inf" then some .negInf
+  else (parseRat? s).map .fin
+
+def parseIntTok? (s : String) : Option IntTok :=
+  if s == "bad" then some .bad else s.toInt?.map .val
+
+def parseOpt? {α} (f : String → Option α) (s : String) : Option (Option α) :=
+  if s == "N" then some none else (f s).map some
+
+def parseFloatList? (s : String) : Option (List FloatTok) :=
+  if s == "_" then some [] else (s.splitOn ",").mapM parseFloatTok?
+
+def parseRole? : String → Option Role
+  | "code" => some .code | "ts" => some .timeSteps | "em" => some .errorModel | "dec" => some .decoder
+  | "probs" => some .probs | "f" => some .maxFailures | "r" => some .maxRuns | "m" => some .measProb
+  | "o" => some .output | "s" => some .seed | _ => none
+
+def showRole : Role → String
+  | .code => "code" | .timeSteps => "ts" | .errorModel => "em" | .decoder => "dec" | .probs => "probs"
+  | .maxFailures => "f" | .maxRuns => "r" | .measProb => "m" | .output => "o" | .seed => "s"
+
+def parseOrder? (s : String) : Option (List Role) :=
+  if s == "_" then some [] else (s.splitOn ",").mapM parseRole?
+
+def parseTarget? : String → Option Target
+  | "stdout" => some .stdout | "path" => some .path | _ => none
+
+def parseFs? : String → Option Fs
+  | "exists" => some .exists | "creatable" => some .creatable | "notcreatable" => some .notCreatable | _ => none
+
+def parseSpec? (reg spec : String) : Option SpecIn :=
+  match spec.splitOn ":" with
+  | [h, a, c] => do
+      let reg ← parseReg? reg
+      let text ← unhex? h
+      let a ← parseArgTok? a
+      let c ← parseCtorTok? c
+      pure ⟨reg, text, a, c⟩
+  | _ => none
+
+def showErr : Option ConvErr → String
+  | none => "ok" | some .format => "format" | some .unknownName => "unknown"
+  | some .parseArgs => "parse" | some .construct => "construct"
+
+def showEv : Ev → String
+  | .eval r => "eval:" ++ showRole r
+  | .ctor r => "ctor:" ++ showRole r
+
+def showEvs (l : List Ev) : String := if l.isEmpty then "_" else ",".intercalate (l.map showEv)
+
+def showOptRat : Option Rat → String
+  | none => "N" | some q => showRat q
+def showOptInt : Option Int → String
+  | none => "N" | some n => toString n
+
+def showCall (c : SimCall) : String :=
+  ":".intercalate [showRat c.p, showOptInt c.timeSteps, showOptRat c.measProb, showOptInt c.maxRuns,
+    showOptInt c.maxFailures, showOptInt c.seed]
+
+def showCalls (l : List SimCall) : String := if l.isEmpty then "_" else ";".intercalate (l.map showCall)
+
+/-- the payload is abstract: "P" stands for the JSON text of the data -/
+def showWrite {α} (w : WriteOut α) : String :=
+  "so=" ++ showBool w.stdout.isSome ++
+  " file=" ++ (match w.file with | .untouched => "u" | .created _ => "c" | .createdPartial => "p") ++
+  " log=" ++ showBool w.logged.isSome ++ " exit=" ++ toString w.exit ++ " tb=" ++ showBool w.traceback
+
+end C19
+open C19
 
 /-- driver ops of property C19 (first protocol token `c19`) -/
 def c19 : List String → Option String
+  | ["split", h] => do
+      let s ← unhex? h
+      match splitSpec s with
+      | none => pure "nomatch"
+      | some (n, none) => pure (hex n ++ " N")
+      | some (n, some a) => pure (hex n ++ " " ++ hex a)
+  | ["conv", reg, h, a, c] => do
+      let sp ← parseSpec? reg (h ++ ":" ++ a ++ ":" ++ c)
+      let r := convOf sp
+      pure (showErr r.err ++ " e" ++ showBool r.evalCalled ++ " c" ++ showBool r.ctorCalled)
+  | ["prob", t] => do
+      let t ← parseFloatTok? t
+      pure (match probOk t with | some q => "ok " ++ showRat q | none => "rej")
+  | ["int", m, t] => do
+      let m ← m.toInt?
+      let t ← parseIntTok? t
+      pure (match intMinOk m t with | some n => "ok " ++ toString n | none => "rej")
+  | ["write", t, fs, ser] => do
+      let t ← parseTarget? t
+      let fs ← parseFs? fs
+      let ser ← parseBool? ser
+      pure (showWrite (writeData t fs ser ()))
+  | ["merge", files, t, fs, ser] => do
+      let files ← if files == "_" then some [] else (files.splitOn ",").mapM fun
+        | "missing" => some FileTok.missing | "dir" => some FileTok.isDir
+        | "badjson" => some FileTok.badJson | "ok" => some FileTok.ok | _ => none
+      let t ← parseTarget? t
+      let fs ← parseFs? fs
+      let ser ← parseBool? ser
+      pure (match mergeCmd files t fs ser () with
+        | .usage => "usage" | .badJson => "badjson" | .ran w => "ran " ++ showWrite w)
+  | ["cmd", kind, order, regC, spC, regE, spE, regD, spD, ts, probs, f, r, s, m, t, fs, ser] => do
+      let ftp ← (match kind with | "run" => some false | "ftp" => some true | _ => none)
+      let order ← parseOrder? order
+      let code ← parseSpec? regC spC
+      let em ← parseSpec? regE spE
+      let dec ← parseSpec? regD spD
+      let ts ← parseOpt? parseIntTok? ts
+      let probs ← parseFloatList? probs
+      let f ← parseOpt? parseIntTok? f
+      let r ← parseOpt? parseIntTok? r
+      let s ← parseOpt? parseIntTok? s
+      let m ← parseOpt? parseFloatTok? m
+      let t ← parseTarget? t
+      let fs ← parseFs? fs
+      let ser ← parseBool? ser
+      let i : CmdIn := { ftp := ftp, code := code, em := em, dec := dec, timeSteps := ts, probs := probs,
+                         maxFailures := f, maxRuns := r, seed := s, measProb := m, target := t }
+      pure (match cmd (fun c => c) i order fs ser with
+        | .usage ev => "usage ev=" ++ showEvs ev
+        | .ran ev calls w => "ran ev=" ++ showEvs ev ++ " calls=" ++ showCalls calls ++ " " ++ showWrite w)
   | _ => none
 
 end Qec.Drv
